@@ -428,6 +428,17 @@ def thickness_degree_rule(ctx):
 
     def analyse(f):
         env = {}
+        from ..flow import Locals as _Locals
+
+        _L = _Locals(f.node)
+
+        def dim_test(test):
+            """2 / 3 / None: the dimension a branch test selects, by the provenance of its operand (a local holding `<x>.dim`)"""
+            t = _L.text(test)
+            for d in (2, 3):
+                if f".dim == {d}" in t or t == f"dim == {d}":
+                    return d
+            return None
 
         def deg(e):
             if isinstance(e, ast.Constant):
@@ -454,8 +465,7 @@ def thickness_degree_rule(ctx):
                     return a if a == b else MIXED
                 return MIXED if (a or b) else 0
             if isinstance(e, ast.IfExp):
-                t = norm_text(e.test)
-                if "dim == 2" in t:
+                if dim_test(e.test) == 2:
                     return deg(e.body)
                 a, b = deg(e.body), deg(e.orelse)
                 return a if a == b else MIXED
@@ -509,10 +519,9 @@ def thickness_degree_rule(ctx):
                         first = st.target.id not in env or a == 0 and isinstance(env.get(st.target.id), int) and env.get("_zero_" + st.target.id, False)
                         env[st.target.id] = b if (a == b or first) else MIXED
                 elif isinstance(st, ast.If):
-                    t = norm_text(st.test)
-                    if "dim == 2" in t:
+                    if dim_test(st.test) == 2:
                         run(st.body)
-                    elif "dim == 3" in t:
+                    elif dim_test(st.test) == 3:
                         run(st.orelse)
                     else:
                         run(st.body)
